@@ -277,7 +277,10 @@ func c08Gen(rng *rand.Rand, i int) *c08Case {
 	}
 	if strings.HasPrefix(c.Cmd, "compare") && c.Leak == "" && (i/4)%2 == 0 {
 		c.Fresh = 1 + rng.Intn(len(targets))
-		c.FreshLast = (i/8)%2 == 1
+		c.FreshLast = core.Chance(rng, 1, 2)
+		if c.FreshLast && c.Fresh == len(targets) {
+			c.Fresh-- // at least one stale rule in front of the current ones
+		}
 	}
 	n := len(targets)
 	if c.Cmd == "format" {
